@@ -409,16 +409,32 @@ static void xml_show_incomplete(TestReporter *reporter, const char *filename,
 }
 
 static void insert_child_results(struct xml_suite_context *ctx) {
-    char childData[4096];
+    size_t size = 4096;
+    char *childData = malloc(size);
     fseek(child_output_tmpfile, 0, SEEK_SET);
 
     size_t pos = 0, ret;
-    while (!feof(child_output_tmpfile)) {
-        ret = fread(childData+pos, 1, sizeof(childData)-pos, child_output_tmpfile);
+    while (childData != NULL && !feof(child_output_tmpfile)) {
+        if (pos == size - 1) {
+            /* more results than fit, continue in a larger buffer */
+            char *larger = realloc(childData, size * 2);
+            if (larger == NULL) {
+                free(childData);
+                childData = NULL;
+                break;
+            }
+            childData = larger;
+            size *= 2;
+        }
+        /* leave room for the terminator */
+        ret = fread(childData+pos, 1, size-1-pos, child_output_tmpfile);
         if (ferror(child_output_tmpfile)) {
             abort();
         }
         pos += ret;
+    }
+    if (childData == NULL) {
+        abort();
     }
 
     fclose(child_output_tmpfile);
@@ -436,6 +452,7 @@ static void insert_child_results(struct xml_suite_context *ctx) {
 
         xmlAddChildList(ctx->curTest, childLst);
     }
+    free(childData);
 }
 
 static void xml_reporter_finish_test(TestReporter *reporter, const char *filename,
